@@ -196,6 +196,30 @@ def direct_ev1_seed_str(a):
     return _check_seed(_outcome(lambda: impl_ev1_seed_str(a)), valid, lambda: ref.ev1_seed(ent), "ElectrumV1SeedGenerator")
 
 
+def direct_generator_reuse(a):
+    """One seed-generator object asked for several passphrases, in an order with repeats: every answer equals the
+    KDF definition for THAT passphrase (a generator that remembers its first seed shows here)."""
+    kind, lang, s, pps = a
+    words = ref.normalize(s)
+    if kind == "bip39":
+        g = Bip39SeedGenerator(s, _lang(lang))
+        want = lambda p: hashlib.pbkdf2_hmac("sha512", " ".join(words).encode("utf-8"), nfkd("mnemonic" + p).encode("utf-8"), 2048, 64)
+    elif kind == "substrate":
+        g = SubstrateBip39SeedGenerator(s, _lang(lang))
+        ent = sorted(_bip39_validity(lang, words)[1])[0]
+        want = lambda p: hashlib.pbkdf2_hmac("sha512", ent, nfkd("mnemonic" + p).encode("utf-8"), 2048, 64)
+    else:
+        g = ElectrumV2SeedGenerator(s)
+        want = lambda p: hashlib.pbkdf2_hmac("sha512", " ".join(words).encode("utf-8"), nfkd("electrum" + p).encode("utf-8"), 2048, 64)
+    for k, p in enumerate(pps):
+        got = g.Generate(p)
+        if kind == "substrate":
+            got = got[:64]
+        if got != want(p)[:len(got)]:
+            return "%s generator reused: answer %d (passphrase %r) is not the KDF of that passphrase" % (kind, k, p)
+    return None
+
+
 def direct_nfkd_laws(a):
     """The two hypotheses on NFKD, on one text."""
     s = a[0]
@@ -227,6 +251,7 @@ FUNCS = {
                                 impl=lambda a: oracles_bip39.sha256_iter_electrum_v1(a[0], a[1])),
     "utf8_encode": Func(model=lambda m, a: m.call("utf8_encode", a[0]), impl=lambda a: a[0].encode("utf-8")),
     "nfkd_laws": Func(direct=direct_nfkd_laws),
+    "generator_reuse": Func(impl=lambda a: 0, direct=direct_generator_reuse),
 }
 
 
@@ -337,6 +362,33 @@ def generate(ctx):
                 ctx.run("bip39_seed_str", [i, " ".join(words[:-1] + [words[-1] + "x"]), pps[0]], "non-word")
                 ctx.run("bip39_seed_str", [(i + 1) % 9, " ".join(words), pps[0]], "wrong-language")
                 ctx.run("bip39_seed_list", [i, words[1:], pps[0]], "list-short")
+    # every word of every list at least once (a single re-saved or misspelt list entry shows here): sentences whose
+    # first eleven words walk through the list, the twelfth fixed by the checksum
+    sweep_langs = order if not ctx.quick else order
+    for i in sweep_langs:
+        wl = ref.wordlist(i)[0]
+        for start in range(0, 2048, 11):
+            idx = [(start + k) % 2048 for k in range(11)]
+            bits = "".join(format(x, "011b") for x in idx)
+            for tail in range(128):
+                ent = int(bits + format(tail, "07b"), 2).to_bytes(16, "big")
+                ws = ref.encode(i, ent)
+                if [wl.index(w) for w in ws[:11]] == idx:
+                    break
+            ctx.run("bip39_seed_str", [i, " ".join(ws), ""], "every-word")
+    # one generator object, several passphrases (with repeats)
+    for kind in ("bip39", "substrate", "ev2"):
+        for _ in range(ctx.n(3, 12)):
+            if kind == "ev2":
+                ws = ev2_sentence(rng, 12)
+                if ws is None:
+                    continue
+                lang = None
+            else:
+                lang = rng.choice(order)
+                ws = ref.encode(lang, bytes(rng.randrange(256) for _ in range(16)))
+            pps = passphrases(rng, 3)
+            ctx.run("generator_reuse", [kind, lang, " ".join(ws), [pps[0], pps[1], pps[0], pps[2], "", pps[1]]], kind)
     # passphrase sweep on one accented and one CJK sentence
     for i in (ES, KO):
         words = ref.encode(i, bytes(rng.randrange(256) for _ in range(16)))
